@@ -928,8 +928,8 @@ mod gen {
         mem
     }
 
-    fn env(rng: &mut Rng) -> Env {
-        let (mem_base, words): (u64, usize) = match rng.below(10) {
+    fn env(rng: &mut Rng, sane: bool) -> Env {
+        let (mem_base, words): (u64, usize) = match if sane { 9 } else { rng.below(10) } {
             0 => (0, 16),                 // stack at address 0 (esp < 8 readable)
             1 => (0xffff_ffc0, 16),       // stack ends exactly at 2^32
             2 => (0xffff_ffe0, 16),       // stack crosses 2^32
@@ -944,7 +944,7 @@ mod gen {
             }
             (mem_base as u32).wrapping_add(4 * rng.below(words as u64) as u32)
         };
-        let esp = match rng.below(12) {
+        let esp = match if sane { 11 } else { rng.below(12) } {
             0 => 0,
             1 => 4,
             2 => 7,
@@ -955,7 +955,7 @@ mod gen {
             7 => in_stack(rng).wrapping_add(1 + rng.below(3) as u32), // unaligned
             _ => in_stack(rng),
         };
-        let ebp = match rng.below(8) {
+        let ebp = match if sane { 7 } else { rng.below(8) } {
             0 => 0xffff_fffc,
             1 => 0xffff_fffb,
             2 => 0,
@@ -986,8 +986,8 @@ mod gen {
         Env { regs, mem_base, mem }
     }
 
-    fn size_field(rng: &mut Rng) -> u32 {
-        match rng.below(10) {
+    fn size_field(rng: &mut Rng, sane: bool) -> u32 {
+        match if sane { 9 } else { rng.below(10) } {
             0..=2 => *rng.pick(&SIZES),
             3 => rng.next() as u32,
             4 => 0xffff_fff0u32.wrapping_add(rng.below(16) as u32),
@@ -995,8 +995,8 @@ mod gen {
         }
     }
 
-    fn gc(rng: &mut Rng) -> (bool, u32) {
-        match rng.below(8) {
+    fn gc(rng: &mut Rng, sane: bool) -> (bool, u32) {
+        match if sane { [0, 3, 7, 7][rng.below(4) as usize] } else { rng.below(8) } {
             0..=2 => (false, 0),
             3 => (true, 0),
             4 => (true, *rng.pick(&SIZES)),
@@ -1113,9 +1113,9 @@ mod gen {
         // esp = 0x1010, ebp = 0x1030 (so that esp+frame_size = 0x1024 differs from ebp+4); the stack holds pointers into itself so that `^` chains succeed
         let base = 0x1000u64;
         let mut mem = vec![];
-        for i in 0..32u32 {
+        for i in 0..16u32 {
             let v = match i % 4 {
-                0 => 0x1000 + 4 * ((i * 7 + 3) % 32),
+                0 => 0x1000 + 4 * ((i * 7 + 3) % 16),
                 1 => 0x40_1000 + i,
                 2 => 8 * i,
                 _ => 0xffff_fff0 + i % 16,
@@ -1168,7 +1168,7 @@ mod gen {
     pub fn generate(tier: Tier, rng: &mut Rng, emit: &mut dyn FnMut(String)) {
         let (full_len, core_len, random_n, stack_n) = match tier {
             Tier::Quick => (2, 4, 60_000, 3_000),
-            Tier::Thorough => (3, 5, 900_000, 40_000),
+            Tier::Thorough => (3, 5, 1_500_000, 60_000),
         };
         // ---- exhaustive programs
         emit(mk_case(&fixed_env(), 0x40_0000, 0x40_1005, (true, 8), false, vec![fd(0x1000, 0x100, 0xc, 4, 8, "")]));
@@ -1196,8 +1196,9 @@ mod gen {
         }
         // ---- random
         for _ in 0..random_n {
-            let e = env(rng);
-            let g = gc(rng);
+            let sane = rng.chance(1, 2);
+            let e = env(rng, sane);
+            let g = gc(rng, sane);
             let base: u64 = match rng.below(6) {
                 0 => 0,
                 1 => 0xffff_ffff_0000_0000,
@@ -1216,11 +1217,11 @@ mod gen {
                 (lo, (off - lo) as u32 + 1 + rng.below(0x40) as u32)
             };
             let mk_fd = |rng: &mut Rng, a: u64, s: u32| -> Rec {
-                fd(a, s, size_field(rng), size_field(rng), size_field(rng), &program(rng))
+                fd(a, s, size_field(rng, sane), size_field(rng, sane), size_field(rng, sane), &program(rng))
             };
             let mk_fpo = |rng: &mut Rng, a: u64, s: u32| -> Rec {
                 let rest = *rng.pick(&["0", "1", "0", "1", "1 ", "01", "", "x", "10"]);
-                fpo(a, s, size_field(rng), size_field(rng), size_field(rng), rest)
+                fpo(a, s, size_field(rng, sane), size_field(rng, sane), size_field(rng, sane), rest)
             };
             match shape {
                 0..=8 => {
